@@ -221,7 +221,15 @@ pub fn run_c11(out: &mut Out) {
         let r = guarded(|| RunStats::from(a.view()));
         match r {
             Err(e) => out.fail(&id, "C11:nan-summary-panic", "RunStats::from panicked on an array with constant parameters", (m * n * p) as u64, e),
-            Ok(_) => out.count("runstats_with_constant_params"),
+            Ok(rs) => {
+                out.count("runstats_with_constant_params");
+                // printing the summary (what the progress bars and users do with it) must not fail either
+                match guarded(|| format!("{rs}")) {
+                    Ok(text) if !text.is_empty() => out.count("runstats_displayed"),
+                    Ok(_) => out.fail(&id, "C11:display-empty", "the run summary prints as an empty string", 1, String::new()),
+                    Err(e) => out.fail(&id, "C11:nan-summary-panic", "printing a run summary with NaN diagnostics panicked", 1, e),
+                }
+            }
         }
     }
 }
